@@ -6,7 +6,7 @@ From AgileV Require Import C13.Model.
 (* canonical outcome classes of the harness: BrokenPipeError / ConnectionResetError / EOFError are one
    class ("the peer is gone"); CO_Other never matches *)
 Inductive ocls := CO_Ok | CO_Pending | CO_NoCall | CO_Closed | CO_Exc (e : nat) | CO_Timeout
-                | CO_Gone | CO_Attr | CO_Hang | CO_Other.
+                | CO_Gone | CO_Attr | CO_Hang | CO_Other | CO_ArgErr.
 
 Definition cls (o : outcome) : ocls :=
   match o with
@@ -18,7 +18,7 @@ Definition cls (o : outcome) : ocls :=
 Definition ocls_eqb (a b : ocls) : bool :=
   match a, b with
   | CO_Ok, CO_Ok | CO_Pending, CO_Pending | CO_NoCall, CO_NoCall | CO_Closed, CO_Closed
-  | CO_Timeout, CO_Timeout | CO_Gone, CO_Gone | CO_Attr, CO_Attr | CO_Hang, CO_Hang => true
+  | CO_Timeout, CO_Timeout | CO_Gone, CO_Gone | CO_Attr, CO_Attr | CO_Hang, CO_Hang | CO_ArgErr, CO_ArgErr => true
   | CO_Exc x, CO_Exc y => Nat.eqb x y
   | _, _ => false
   end.
@@ -36,11 +36,13 @@ Definition obs1 := (ocls * pst * bool * list bool * option (list nat))%type.
 
 Definition alive_flags (e : env) : list bool := map (fun w => negb (is_dead (stat w))) (ws e).
 
-Definition check_one (o : outcome) (e : env) (ob : obs1) : bool :=
+Definition check_one_c (c0 : ocls) (e : env) (ob : obs1) : bool :=
   let '(c, s, cl, al, g) := ob in
-  ocls_eqb (cls o) c && Bool.eqb (closed e) cl && (cl || pst_eqb (st e) s) &&   (* _state is not observable after close *)
+  ocls_eqb c0 c && Bool.eqb (closed e) cl && (cl || pst_eqb (st e) s) &&   (* _state is not observable after close *)
   list_eqb Bool.eqb (alive_flags e) al &&
   match g with Some l => list_eqb Nat.eqb (got e) l | None => true end.
+
+Definition check_one (o : outcome) (e : env) (ob : obs1) : bool := check_one_c (cls o) e ob.
 
 Fixpoint check_trace (v : variant) (e : env) (ops : list op) (obs : list obs1) : bool :=
   match ops, obs with
@@ -63,19 +65,20 @@ Definition check_staggered (plans : list (list behav)) (k : kind) (T : nat) (ds 
   let '(o, e2) := wait_timed false k T ds e1 in
   ocls_eqb (cls o) c && pst_eqb (st e2) s.
 
-(* the synchronous wrappers reset() / step() / call(): X_async, then X_wait() without timeout if the first succeeded *)
-Inductive xop := XOp (o : op) | XSync (k : kind).
-Definition step_x (v : variant) (e : env) (x : xop) : outcome * env :=
+(* the synchronous wrappers reset() / step() / call() ([sync] of the model) and calls rejected for their arguments
+   ([arg_rejected]: ValueError / AssertionError = class CO_ArgErr, or ClosedEnvironmentError after close) *)
+Inductive xop := XOp (o : op) | XSync (k : kind) | XArg.
+Definition step_x (v : variant) (e : env) (x : xop) : ocls * env :=
   match x with
-  | XOp o => step_gen v e o
-  | XSync k => let '(o1, e1) := async k e in
-               match o1 with Ok => wait k false e1 | _ => (o1, e1) end
+  | XOp o => let '(r, e') := step_gen v e o in (cls r, e')
+  | XSync k => let '(r, e') := sync k e in (cls r, e')
+  | XArg => let '(bo, e') := arg_rejected e in ((if fst bo then CO_ArgErr else cls (snd bo)), e')
   end.
 Fixpoint check_trace_x (v : variant) (e : env) (ops : list xop) (obs : list obs1) : bool :=
   match ops, obs with
   | [], [] => true
   | o :: ops', ob :: obs' =>
-      let '(r, e') := step_x v e o in check_one r e' ob && check_trace_x v e' ops' obs'
+      let '(c, e') := step_x v e o in check_one_c c e' ob && check_trace_x v e' ops' obs'
   | _, _ => false
   end.
 Definition check_run_x (v : variant) (plans : list (list behav)) (ops : list xop) (obs : list obs1) : bool :=
